@@ -179,6 +179,8 @@ func consumeUnsignedInteger(sr *utils.StringReader, buf *bytes.Buffer) {
 		case utf8.RuneError:
 			panic(errors.New("unicode error"))
 		case 0:
+			// end of input ends the number (an empty case would spin here forever)
+			return
 		case '.':
 			panic(badToken(r))
 		default:
